@@ -5,27 +5,33 @@
    the history (adversary).  Statements are about EVERY history (C14_reachable_invariant) and
    every step from a reachable state.
 
-   Premise [print_imports] (explicit in every theorem that needs it): the bytes WriteE prints
-   for a completion import to its normalisation — the C13 round trip (tree level proved
-   there, byte level checked by correspondence on every run; see C14_premise_example).
+   No premise: that the bytes WriteE prints for a completion import to read_back r (the
+   normalised completion; every text as Go's encoder leaves it, i.e. unchanged when it is valid
+   UTF-8 — C14_read_back_valid) is the byte-level round trip proved in Proofs/ExportBytes.v.
    Names stand for paths: SHA-1 is taken to be injective on (call site, joined keys).
    The exact `<=` boundary at age = timeout is decided here in the model only (DESIGN 6.14). *)
 From Coq Require Import ZArith.
-From CV Require Import Base.Str Model.Common Model.JsonParse Model.Action Model.Export Model.Cache Proofs.Export Proofs.Cache.
+From CV Require Import Base.Str Model.Common Model.JsonParse Model.Action Model.Export Model.Cache Proofs.Export Proofs.JsonString Proofs.ExportBytes Proofs.Cache.
 
-Definition premise (version : str) : Prop :=
-  forall r, exists e, import (print version r) = IOk e /\ completion_of e = norm_inv r.
+Theorem C14_bytes_read_back : forall version r,
+  exists e, import (print version r) = IOk e /\ completion_of e = read_back r.
+Proof. exact print_imports. Qed.
+Print Assumptions C14_bytes_read_back.
+
+Theorem C14_read_back_valid : forall r, valid_invoked r -> read_back r = norm_inv r.
+Proof. exact read_back_valid. Qed.
+Print Assumptions C14_read_back_valid.
 
 Theorem C14_reachable_invariant : forall version w, reachable version w -> Inv version w.
 Proof. exact reachable_inv. Qed.
 Print Assumptions C14_reachable_invariant.
 
-Theorem C14_transparent : forall version, premise version ->
+Theorem C14_transparent : forall version,
   forall w site ids k2 t r w' res, Inv version w ->
   step version w (OInvoke site (Some ids) k2 t r) = (w', Served false res) ->
   w' = w /\
   exists e, lookup (fs w) (file_name site ids) = Some e /\ fresh w e t /\
-            (forall r0, origin e = Some r0 -> res = norm_inv r0 /\ messages (fst r0) = []).
+            (forall r0, origin e = Some r0 -> res = read_back r0 /\ messages (fst r0) = []).
 Proof. exact transparent. Qed.
 Print Assumptions C14_transparent.
 
@@ -81,8 +87,7 @@ Example C14_example :
               OInvoke (B [48]) (Some [B [107]]) (Some [B [107]]) 3600 r2;
               OAdvance 7200;
               OInvoke (B [48]) (Some [B [107]]) (Some [B [107]]) 3600 r2] in
-  snd (run (B [118]) world0 ops) = [Served true r1; Served false (norm_inv r1); Quiet; Served true r2].
+  snd (run (B [118]) world0 ops) = [Served true r1; Served false (read_back r1); Quiet; Served true r2].
 Proof. vm_compute. reflexivity. Qed.
-Example C14_premise_example :
-  exists e, import (print (B [118]) r1) = IOk e /\ completion_of e = norm_inv r1.
-Proof. eexists. split; vm_compute; reflexivity. Qed.
+Example C14_read_back_example : read_back r1 = norm_inv r1.
+Proof. vm_compute. reflexivity. Qed.
